@@ -55,7 +55,23 @@ func H_C04_keyholder(blocks int) {
 		verifrt.Assume(verifrt.And(L >= 0, int(L) <= len(plain)-32))
 		mk = refSha1(plain[:32+int(L)])[4:20]
 	} else {
-		mk = verifrt.Bytes(16)
+		// a wrong msg_key, built constructively so that a counterexample replays with the real SHA-1: the
+		// honest key for the declared length (when that length is inside) xor a non-zero difference
+		delta := verifrt.Bytes(16)
+		L := int32(rd32(plain[28:32]))
+		if verifrt.And(L >= 0, int(L) <= len(plain)-32) {
+			var nz byte
+			for _, d := range delta {
+				nz |= d
+			}
+			verifrt.Assume(nz != 0)
+			mk = refSha1(plain[:32+int(L)])[4:20]
+			for i := range mk {
+				mk[i] ^= delta[i]
+			}
+		} else {
+			mk = delta
+		}
 	}
 	pkt := refSealRaw(key, mk, plain, 8)
 	var msg *Encrypted
@@ -145,5 +161,22 @@ func H_C04_unencrypted(maxlen int) {
 		verifrt.Assert(int(rd32(data[16:20])) == n-20, "unenc-accepted-implies-exact-length")
 		verifrt.Assert(uint64(m.MsgID) == rd64(data[8:16]), "unenc-accepted-msg-id")
 		verifrt.Assert(verifrt.SameBytes(m.Msg, data[20:]), "unenc-accepted-body")
+	}
+}
+
+// H_C04_nokey: the session holds no auth key yet (key exchange still running: GetAuthKey() is empty) or an
+// incomplete one of klen < 256 bytes, and a packet arrives that claims to be encrypted - arbitrary bytes, or
+// carrying exactly the key id of that empty/short key.  It is refused with an error, never a panic.
+func H_C04_nokey(klen, blocks int) {
+	key := verifrt.Bytes(klen)
+	pkt := verifrt.Bytes(24 + 16*blocks)
+	if verifrt.Bool() {
+		copy(pkt, refSha1(key)[12:20])
+	}
+	var err error
+	pn := verifrt.Catch(func() { _, err = DeserializeEncrypted(pkt, key) })
+	verifrt.Assert(!pn, "nokey-no-panic")
+	if !pn && klen == 0 { // nothing can be sealed under no key; a short key is only required not to crash
+		verifrt.Assert(err != nil, "nokey-refused")
 	}
 }
